@@ -61,6 +61,8 @@ pub struct Invocation {
     pub finished: bool,
     pub returned: Option<Result<ExitStatus, io::ErrorKind>>,
     pub zero_len_reads_ok: bool,
+    /// the async Request's contains_var / get_var / get_var_str wrappers agree with env_iter
+    pub wrappers_ok: bool,
     /// executor step (world clock) at which the invocation started
     pub started_at: u64,
     pub output_stream_panics: u32,
@@ -217,6 +219,11 @@ async fn interpret(req: &mut Req<'_>, script: Script, log: SharedLog, idx: usize
                         drop(w);
                         fail!("flush", e);
                     }
+                    // closing a stream writer is a no-op (streams end in Request::close)
+                    if let Err(e) = w.close().await {
+                        drop(w);
+                        fail!("close", e);
+                    }
                 }
             }
             Op::Yield => {
@@ -252,13 +259,17 @@ pub fn make_handler(scripts: Vec<Script>, log: SharedLog) -> impl for<'a, 'b> Fn
             let mut l = log.lock().unwrap();
             let idx = l.invocations.len();
             let mut env = std::collections::BTreeMap::new();
+            let mut wrappers_ok = true;
             for (k, v) in req.env_iter() {
                 let key: &str = k.as_ref();
                 env.insert(key.to_string(), v.to_vec());
+                // the async Request's lookup wrappers agree with the iterator
+                wrappers_ok &= req.contains_var(key) && req.get_var(key) == Some(v) && req.get_var_str(key) == std::str::from_utf8(v).ok();
             }
+            wrappers_ok &= !req.contains_var("X_ABSENT_\u{2}");
             let view = ReqView { id: 0, role: u16::from(req.role()), flags: req.flags().bits(), env, env_len: req.env_len() };
             let started_at = l.clock;
-            l.invocations.push(Invocation { view: Some(view), zero_len_reads_ok: true, started_at, ..Invocation::default() });
+            l.invocations.push(Invocation { view: Some(view), zero_len_reads_ok: true, wrappers_ok, started_at, ..Invocation::default() });
             // the request names its script through the marker variable XI (fallback: invocation count)
             let which = req.get_var("XI").and_then(|v| v.first().map(|b| usize::from(b.wrapping_sub(b'0')))).unwrap_or(idx);
             (idx, scripts[which.min(scripts.len() - 1)].clone())
